@@ -167,3 +167,81 @@ Proof.
     rewrite removelast_app_one in K. rewrite app_length. simpl. replace (length ys + 1 - 1)%nat with (length ys) by lia. exact K.
 Qed.
 End EmitStage.
+
+(* ---------- Seq / ToSeq ---------- *)
+Section SeqGen.
+Variables (xs : list Z) (ocaps : list nat).
+Definition seqgen_cfg : cfg := gen_stage (plan_seq xs) 0 [0%nat] ocaps.
+Let c := seqgen_cfg.
+
+Lemma seqgen_wf : wf_cfg c.
+Proof. apply gen_wf. repeat constructor; simpl; intuition. Qed.
+Lemma seqgen_simple : simple_cfg c.
+Proof.
+  constructor; simpl; auto; [|constructor]. intros w l a. unfold plan_seq.
+  destruct (nth_error xs (Z.to_nat l)); repeat constructor.
+Qed.
+
+(* n rounds starting at index i emit xs[i], xs[i+1], ... (at most n of them) *)
+Lemma sq_spec ys : forall i : nat, spec c 0 0 (Z.of_nat i) ys = firstn (length ys) (skipn i xs).
+Proof.
+  induction ys as [|y ys IH]; intros i; simpl; auto. unfold plan_seq. rewrite Nat2Z.id.
+  destruct (nth_error xs i) as [v|] eqn:E.
+  - simpl. replace (Z.of_nat i + 1) with (Z.of_nat (S i)) by lia. rewrite IH.
+    assert (Hs : skipn i xs = v :: skipn (S i) xs).
+    { clear - E. revert i E. induction xs as [|x l IHl]; intros [|i] E; simpl in *; try discriminate.
+      - inversion E. reflexivity.
+      - apply IHl. exact E. }
+    rewrite Hs. reflexivity.
+  - simpl. rewrite IH. apply nth_error_None in E. rewrite !skipn_all2 by lia. now rewrite !firstn_nil.
+Qed.
+Lemma sq_stopped ys : forall i : nat, (i <= length xs)%nat ->
+  stopped c 0 (Z.of_nat i) ys = Nat.ltb (length xs) (i + length ys).
+Proof.
+  induction ys as [|y ys IH]; intros i Hi; simpl.
+  - symmetry. apply Nat.ltb_ge. lia.
+  - unfold plan_seq. rewrite Nat2Z.id. destruct (nth_error xs i) as [v|] eqn:E.
+    + simpl. replace (Z.of_nat i + 1) with (Z.of_nat (S i)) by lia.
+      assert (Hlt : (i < length xs)%nat) by (apply nth_error_Some; congruence).
+      rewrite IH by lia. f_equal. lia.
+    + simpl. symmetry. apply Nat.ltb_lt. apply nth_error_None in E. lia.
+Qed.
+
+(* SAFETY: what ToSeq has received so far is a prefix of xs; COMPLETION: exactly xs, then closed *)
+Theorem seqgen_prefix s : reachable c s -> prefix (delivered s 0) xs.
+Proof.
+  intros Hr. eapply prefix_trans; [apply (seq_delivered_prefix c eq_refl s 0 Hr)|].
+  unfold full_spec. simpl. replace (if weof (ws s 0) then [] else []) with (@nil val) by (destruct (weof (ws s 0)); reflexivity).
+  rewrite app_nil_r. change 0 with (Z.of_nat 0). rewrite sq_spec. simpl. exists (skipn (length (wtaken (ws s 0))) xs).
+  symmetry. apply firstn_skipn.
+Qed.
+
+Theorem seqgen_identity s :
+  reachable c s -> cancelled s = false -> quiescent c s -> no_receive c s ->
+  delivered s 0 = xs /\ wc (ws s 0) = WDone /\ cclosed (outs s 0) = true.
+Proof.
+  intros Hr Hcn Hq Hnr. pose proof (nopanic c seqgen_wf s Hr) as Hp.
+  assert (Hd : wc (ws s 0) = WDone).
+  { destruct (drain c s Hp Hq Hnr) as [Hd _].
+    - intros w Hw i Hs. assert (w = 0%nat) by (simpl in Hw; lia). subst. discriminate.
+    - intros w Hw. pose proof (simple_reachable c seqgen_simple s Hr w) as Hs.
+      destruct (wc (ws s w)) as [| | ? [|[] ?] | |]; simpl in Hs; auto; inversion Hs; auto.
+    - apply Hd. simpl. lia. }
+  pose proof (Kinv_reachable c s Hr 0%nat) as K.
+  assert (Hlen : length (wtaken (ws s 0)) = S (length xs)).
+  { destruct (k_done c s 0%nat K Hcn Hd) as [He|[Hs|[_ Hpre]]]; [| |simpl in Hpre; discriminate].
+    - rewrite (noeof_reachable c s Hr 0%nat eq_refl) in He. discriminate.
+    - change (stopped c 0 (Z.of_nat 0) (wtaken (ws s 0)) = true) in Hs. rewrite sq_stopped in Hs by lia.
+      apply Nat.ltb_lt in Hs.
+      pose proof (k_before c s 0%nat K) as Kb. change (stopped c 0 (Z.of_nat 0) (removelast (wtaken (ws s 0))) = false) in Kb.
+      rewrite sq_stopped in Kb by lia. apply Nat.ltb_ge in Kb.
+      destruct (list_snoc_cases (wtaken (ws s 0))) as [E|(ys & a & E)]; rewrite E in *; [simpl in Hs; lia|].
+      rewrite removelast_app_one in Kb. rewrite app_length in *. simpl in *. lia. }
+  split; [|split; [exact Hd|]].
+  - pose proof (seq_stream c eq_refl s 0 Hr) as A.
+    rewrite (no_receive_empty c s 0 Hp Hnr), (k_dropped c s 0%nat K Hcn 0%nat), Hd in A. simpl in A. rewrite !app_nil_r in A.
+    rewrite A. unfold full_spec. simpl. replace (if weof (ws s 0) then [] else []) with (@nil val) by (destruct (weof (ws s 0)); reflexivity).
+    rewrite app_nil_r. change 0 with (Z.of_nat 0). rewrite sq_spec, Hlen. cbn [skipn]. apply firstn_all2. lia.
+  - destruct (done_closed_reachable c seqgen_wf s Hr) as [B _]. apply (B eq_refl 0%nat); simpl; auto.
+Qed.
+End SeqGen.
